@@ -89,6 +89,25 @@ ELEMENT_OF = {
 }
 
 
+ATOMIC_PREFIX = "std::sync::atomic::Atomic"
+ATOMIC_RMW = {"swap", "fetch_add", "fetch_sub", "fetch_or", "fetch_and", "fetch_xor", "fetch_nand", "fetch_max",
+              "fetch_min", "compare_exchange", "compare_exchange_weak", "fetch_update", "compare_and_swap"}
+
+
+def atomic_op(path):
+    """'RMW' | 'LOAD' | 'STORE' for a call on a std atomic, else None"""
+    if not path or not path.startswith(ATOMIC_PREFIX):
+        return None
+    name = path.split("::")[-1]
+    if name in ATOMIC_RMW:
+        return "RMW"
+    if name == "load":
+        return "LOAD"
+    if name == "store":
+        return "STORE"
+    return None
+
+
 def is_guard_type(tydesc):
     s = tydesc.get("s", "")
     return ("RwLockReadGuard" in s or "RwLockWriteGuard" in s or "MutexGuard" in s)
@@ -380,7 +399,7 @@ class Body:
                     continue
                 f = t["fn"]
                 p = norm(f.get("path")) if f["k"] == "def" else None
-                if (p in TRANSPARENT or p in LOCK_ACQ) and t["args"]:
+                if (p in TRANSPARENT or p in LOCK_ACQ or atomic_op(p) in ("LOAD", "RMW")) and t["args"]:
                     # a guard denotes the cell it locks (guard liveness is tracked separately)
                     out |= self.operand_prov(t["args"][0], _stack)
                 elif p in CONDVAR_WAIT and len(t["args"]) > 1:
@@ -464,6 +483,17 @@ class Body:
 
     def in_cycle(self, bb):
         return bb in self.reachable_from(bb)
+
+    # ---- accesses to shared cells: lock acquisitions and atomic operations
+    def accesses(self):
+        """[dict(bb, kind in R|W|M|RMW|LOAD|STORE, cell=prov set, line)]"""
+        acqs, _, _ = self.guards()
+        out = [dict(bb=bb, kind=a["mode"], cell=a["cell"], line=a["line"]) for bb, a in acqs.items()]
+        for c in self.calls:
+            k = atomic_op(c.path)
+            if k and c.args:
+                out.append(dict(bb=c.bb, kind=k, cell=self.operand_prov(c.args[0]), line=c.line))
+        return out
 
     # ---- guard liveness: forward may-analysis
     # state: frozenset of (holder_local, acq_bb)
